@@ -455,6 +455,15 @@ def c03_cases(tier, seed):
         n_exh += 1
         for o in ([{}, {"enableObjectSlots": False}, {"optimize": True}] if ci == 0 else [{"optimize": bool(n_exh % 2)}]):
             run.append({"id": "e%d" % len(run), "src": gen.PRELUDE + CTXS[ci] % ("<%s%s>%s</%s>" % (host, vs, ch, host)) + "\n", "tsx": False, "opts": o})
+    # user variables that carry the names of generated temporaries / helpers and were ASSIGNED before the element (the visitor remembers
+    # the last assignment target by name when it decides about captured copies)
+    for pre, host, ch, vs in itertools.product(["let _slot; _slot = 1;", "var _slot2, _isSlot; _slot2 = _isSlot = 0;", "let _slot; _slot = 1; const u0 = <Foo>{f()}</Foo>;",
+                                                "let f2; f2 = fn1;", "let _createVNode; _createVNode = 1;"],
+                                               ["Comp", "Unk"], ["{f()}", "{obj.m(1)}", "{val}", "{f()}{x}", "{_slot}"], ["", " v-slots={slotsObj}"]):
+        if "_slot}" in ch and "_slot" not in pre:
+            continue
+        run.append({"id": "e%d" % len(run), "src": gen.PRELUDE + pre + "\nconst v = <%s%s>%s</%s>;\n" % (host, vs, ch, host), "tsx": False,
+                    "opts": {"optimize": bool(len(run) % 2)}})
     prof = {"tags": {"bound": 5, "unbound": 3, "member": 2, "this": 1, "html": 2, "KeepAlive": 1, "Fragment": 1, "_Fragment": 1, "custom": 1},
             "w_directive": 1, "directives": {"slots": 5, "show": 1, "custom": 1},
             "children": {"text": 3, "expr": 3, "ident": 5, "call": 5, "empty": 1, "comment": 1, "spread": 1, "element": 4, "fragment": 1, "fn": 2, "objlit": 2},
@@ -467,7 +476,7 @@ def c03_cases(tier, seed):
 
 
 PROPS["C03"] = {
-    "theorems": ["C03_no_children", "C03_multiple_wrapped", "C03_wrap_shape", "C03_wrap_vslots_literal", "C03_function_child",
+    "theorems": ["C03_no_children", "C03_multiple_wrapped", "C03_wrap_shape", "C03_wrap_vslots_literal", "C03_function_child", "C03_function_child_keeps_vslots",
                  "C03_object_child", "C03_ident_runtime", "C03_ident_disabled", "C03_call_once", "C03_generated_call_wrapped", "C03_helper"],
     "cases": c03_cases,
     "explanation": "oracle: for every component host the slots normal form denoted by the written children (default thunk in order / function child / object child / runtime decision for a sole identifier or call / v-slots entries beside default) equals the one evaluated from the real output's third createVNode argument, temporaries substituted (a call child must be assigned exactly once inside the _isSlot test)",
@@ -513,7 +522,7 @@ PROPS["C04"] = {
 
 # ---- C05 ---------------------------------------------------------------------------------------------------
 MODEL_NAMES = ["v-model", "vModel", "v-model:foo", "v-model_trim", "v-model:foo_lazy", "v-model_a_b"]
-MODEL_VALUES = ["={T}", "={[T]}", "={[T, 'arg']}", "={[T, ['lazy']]}", "={[T, 'arg', ['m']]}", "={[T, x]}", "={[T, x, ['m']]}"]
+MODEL_VALUES = ["={[T, 'my_arg']}", "={[T, 'a_b_c', ['m']]}", "={T}", "={[T]}", "={[T, 'arg']}", "={[T, ['lazy']]}", "={[T, 'arg', ['m']]}", "={[T, x]}", "={[T, x, ['m']]}"]
 MODEL_HOSTS = ["input", 'input type="checkbox"', 'input type="radio"', 'input type="text"', "input type={t}", 'input type={"checkbox"}', "input type={'radio'}", "input type", "select", "textarea", "div", "Comp", "Unk", "NS.Item"]
 
 
@@ -536,7 +545,7 @@ def c05_cases(tier, seed):
         run.append({"id": "e%d" % len(run), "src": gen.PRELUDE + "const v = <%s %s%s></%s>;\n" % (host, name, val.replace("T", tgt), tag), "tsx": False,
                     "opts": {"optimize": bool(len(run) % 2), "mergeProps": len(run) % 3 != 0}})
     for host in ["Comp", "input", "div"]:
-        for models in ["[[val, 'a'], [x, ['m']], [obj.b]]", "[[val]]", "[[val, 'a', ['m']], [x, y]]", "[]"]:
+        for models in ["[[val, 'a'], [x, ['m']], [obj.b]]", "[[val]]", "[[val, 'a', ['m']], [x, y]]", "[]", "[[val, 'my_arg']]", "[[val, 'a_b', ['m']], [x, 'c_']]"]:
             for rest in ["", ' id="a"', " v-model={z}"]:
                 run.append({"id": "e%d" % len(run), "src": gen.PRELUDE + "const v = <%s v-models={%s}%s/>;\n" % (host, models, rest), "tsx": False, "opts": {}})
     run = [c for c in run if c]
@@ -627,7 +636,7 @@ PROPS["C05"] = {
     "extra": c05_extra,
     "theorems": ["C05_select", "C05_textarea", "C05_input_checkbox", "C05_input_radio", "C05_input_other_static", "C05_input_no_type",
                  "C05_input_dynamic_type", "C05_listener_assigns_target", "C05_component_default", "C05_component_modifiers",
-                 "C05_component_static_arg", "C05_element_binding", "C05_models_sequence", "C05_models_entry_plain", "C05_models_entry_named"],
+                 "C05_component_static_arg", "C05_element_binding", "C05_models_sequence", "C05_models_entry_plain", "C05_models_entry_any", "C05_models_entry_underscore"],
     "cases": c05_cases,
     "explanation": "oracle: on every element carrying v-model(s) the denoted props (value prop, modifiers prop, onUpdate listener assigning to the target) and directive bindings (vModelText/Checkbox/Radio/Select/Dynamic by host and type) equal those evaluated from the real output; v-models is expanded to the same-order v-model sequence in the denotation",
 }
@@ -940,7 +949,7 @@ def c15_cases(tier, seed):
 
 
 PROPS["C15"] = {
-    "theorems": ["C15_default_createVNode", "C15_comment_over_option", "C15_option_pragma", "C15_fragment_callee", "C15_later_comment_wins",
+    "theorems": ["C15_default_createVNode", "C15_comment_over_option", "C15_option_pragma", "C15_invalid_pragma_reported", "C15_fragment_callee", "C15_later_comment_wins",
                  "C15_unannotated_position_keeps", "C15_scan_no_tag", "C15_scan_other_jsx_tags", "C15_scan_bare", "C15_scan_name",
                  "C15_scan_result_is_one_word", "C15_element_callee", "visit_pragma", "visitKids_pragma"],
     "cases": c15_cases,
@@ -992,6 +1001,8 @@ def c20_post(rec, c, r, d):
     """python-side sharpening of the gate clause: Oracle.c20Call accepts a changed call when the callee's BINDING CLASS (syntax context) is that of a
     specifier importing vue's defineComponent - but the resolver gives every module-level binding the same context.  The statement speaks of the
     BINDING: a call whose argument list was changed must have as callee exactly the local identifier (name AND context) of such a specifier."""
+    if os.environ.get("VJX_NO_PY_CLAUSES"):
+        return
     if rec["oracle"] != "ok" or "in" not in r or "out" not in r or r.get("panic") is not None:
         return
     locals_ = _vue_define_locals(r["in"])
@@ -1183,15 +1194,22 @@ ODD_ATTRS = ["a=<b/>", "a=<></>", "a=<b c={<d/>}>t</b>", "class=<i/>", "v-foo", 
              "v-model=<b/>", "v-slots=<b/>", 'v-slots="s"', "v-slots={f()}", "v-show=<b/>", "v-foo=<b/>", 'v-show="s"', "v-foo:arg", "v-foo:arg_m", "v-:x={y}", "v-={y}", "v={y}",
              "v-model:a-b={x}", "v-model={[x, 'a-b']}", "v-model={[x, `t`]}", "v-model={[x, 1]}", "{...<b/>}", "key=<b/>", "ref=<></>", "on=<b/>",
              'v-html="a\\"', 'v-text="a&lt;b"', 'v-foo="c:\\dir\\"', "v-show='q\"q'", 'v-foo="l1\nl2"', 'title="a\\"', 'v-foo:arg_m="&#39;"', 'v-html="\\u0041"']
+ODD_STATEMENTS = ["const f = async () => <Comp>{await g()}</Comp>;", "async function af() { return <Comp><i>{await g()}</i></Comp>; }",
+                  "function* gf() { yield <Comp>{yield 1}</Comp>; }", "const f2 = async () => <div>{await g()}</div>;",
+                  "async function ag() { return <Comp a={await g()}>{x}</Comp>; }", "const f3 = async () => <Comp>{await g()}{y}</Comp>;",
+                  "const f4 = async () => <Comp v-slots={{ s: () => 1 }}>{await g()}</Comp>;", "async function* agf() { yield <Comp>{yield await g()}</Comp>; }"]
 ODD_TAGS = ["a:b", "svg:rect", "this.Comp", "this.a.B", "a.b.c.D", "Foo.bar", "x-y", "div", "Comp", "Fragment", "KeepAlive", "_", "$x", "A1"]
 ODD_CHILDREN = ["", "{}", "{/* c */}", "{...xs}", "{<b/>}", "<></>", "{...<b/>}", "{function(){}}", "{{}}", "{[]}", "{[,]}", "&amp;&#x41;", "{' '}", "{`t`}", "{a}{}{b}"]
-ODD_COMMENTS = ["", "/* @jsx h */", "/* @jsx h extra */", "/** @jsxImportSource vue */", "/* @jsx */", "// @jsx a.b", "/* @jsx $h */", "/* @jsxFrag F */", "/* @jsx h */ /* @jsx k */"]
-CYCLIC = ["type T = T;", "type A = B; type B = A;", "interface I extends I { a: 1 }", "interface P extends Q {} interface Q extends P {}",
+ODD_COMMENTS = ["", "/* @jsx h */", "/* @jsx h extra */", "/** @jsxImportSource vue */", "/* @jsx */", "// @jsx a.b", "/* @jsx $h */", "/* @jsxFrag F */", "/* @jsx h */ /* @jsx k */",
+                "/* @jsx h( */", "/* @jsx # */", "/* @jsx h-1 */", "/* @jsx 1 */", "// @jsx a.b.c", "/* @jsx a..b */", "/* @jsx 'h' */", "/* @jsx h,k */"]
+CYCLIC = ["type A = A | A;", "type T = T & T;", "interface I extends I, I { a: 1 }", "type T = [T, T][number];", "type T = { a: T | T }['a'];", "type A = B | B; type B = A | A;",
+          "type T = T;", "type A = B; type B = A;", "interface I extends I { a: 1 }", "interface P extends Q {} interface Q extends P {}",
           "type T = { a: T }['a'];", "type T = T | string;", "type T = Partial<T>;", "type T = (T);", "type K = K; type T = Pick<{a: 1}, K>;", "type T = T['x'];",
           "type T = { a: string } & T;", "type T = Array<T>[number];", "interface I { a: I['a'] }"]
 
 
-CYCLIC_T = ["type T = T;", "type T = B; type B = T;", "interface T extends T { a: 1 }", "interface T extends Q {} interface Q extends T {}", "type T = { a: T }['a'];",
+CYCLIC_T = ["type T = T | T;", "type T = T & T & T;", "interface T extends T, T { a: 1 }", "type T = B | B; type B = T | T;",
+            "type T = T;", "type T = B; type B = T;", "interface T extends T { a: 1 }", "interface T extends Q {} interface Q extends T {}", "type T = { a: T }['a'];",
             "type T = T | string;", "type T = Partial<T>;", "type T = (T);", "type T = Pick<{a: 1}, T>;", "type T = T['x'];", "type T = { a: string } & T;",
             "type T = Array<T>[number];", "interface T { a: T['a'] }", "type T = NonNullable<T>;", "type T = Exclude<T, 1>;", "type T = Extract<1, T>;", "type T = T[number];",
             "type T = [T][0];", "type T = Omit<T, 'a'>;", "type T = Required<T>;", "type T = { a: 1 }[T];", "type T = B['x']; type B = T['y'];", "type T = B['x']; type B = { x: T };",
@@ -1215,6 +1233,8 @@ def malformed_stream(tier, r):
     for a1, a2 in itertools.product(ODD_ATTRS, repeat=2):
         if r.below(100) < (3 if tier == "quick" else 25):
             out.append({"src": gen.PRELUDE + "const v = <div %s %s/>;\nconst w = <Comp %s %s>{x}</Comp>;\n" % (a1, a2, a2, a1), "tsx": False})
+    for st in ODD_STATEMENTS:
+        out.append({"src": gen.PRELUDE + st + "\n", "tsx": False})
     for depth in [5, 50, 200]:
         out.append({"src": gen.PRELUDE + "const v = " + "<div>" * depth + "{x}" + "</div>" * depth + ";\n", "tsx": False})
         out.append({"src": gen.PRELUDE + "const v = " + "<Comp a={" * depth + "1" + "}/>" * depth + ";\n", "tsx": False})
@@ -1317,6 +1337,9 @@ def c07_cases(tier, seed):
         if "resolveType" not in o and r.chance(0.1):
             o["pragma"] = "h"
         run.append({"id": "x%d" % i, "src": c["src"], "tsx": c["tsx"], "opts": o})
+    # the `pragma` OPTION with values that are not an identifier (C07: never a multi-word / non-identifier callee without an error)
+    for i, pv in enumerate(["h", "h x", "", "h(", "a.b", "1", "h-1", "#", "h,k", " h", "a..b", "$_h9", "new"]):
+        run.append({"id": "po%d" % i, "src": gen.PRELUDE + "const v = <div id=\"a\">{x}</div>;\nconst w = <><Comp/></>;\n", "tsx": False, "opts": {"pragma": pv}})
     prof = dict(GENERAL_PROFILE)
     prof["tags"] = dict(ALL_TAGS, ns=1, this=2)
     prof["attr_values"] = {"string": 4, "none": 3, "expr": 6, "const": 2, "string-ws": 1, "jsx": 2, "empty": 0}
@@ -1417,7 +1440,7 @@ C06_CTX = ["%s;", "const v = %s;", "function f() { return %s; }", "function f(a 
            "export default %s;", "export const e = [%s, %s];", "const nested = () => () => %s;", "function outer() { function inner() { return %s; } return inner; }",
            "namespace N { export const c = %s; }", "const t = cond ? %s : %s;", "x = %s, y = %s;"]
 C06_SIBLINGS = ["", "function g() { return 1; }", "const q = () => 2;", "val2 = 5;", "const _createVNode = 1, _slot = 2, _isSlot = 3, _Fragment = 4, _slot2 = 5;",
-                "function _isSlot() {}", "let $event = 0;", "const h2 = () => { let _slot; return _slot; };", "class C2 { m() { return 1; } }", "(<Foo>{g2()}</Foo>);"]
+                "function _isSlot() {}", "let $event = 0;", "let _slot; _slot = 1;", "var _slot2, _isSlot; _slot2 = _isSlot = 0;", "let _Comp; _Comp = Comp;", "const h2 = () => { let _slot; return _slot; };", "class C2 { m() { return 1; } }", "(<Foo>{g2()}</Foo>);"]
 
 
 def c06_cases(tier, seed):
@@ -1586,6 +1609,8 @@ def c10_extra(run_cases, recs, records):
     """python-side clause of the pair oracle (binding identity is not in the printed statement): a temporary the lowered statement writes must not be
     mentioned by any other statement of the module - alone it never is; if it is in context, what the statement evaluates to (its slot functions
     read the temporary lazily) depends on the code around it"""
+    if os.environ.get("VJX_NO_PY_CLAUSES"):
+        return
     byid = {c["id"]: r for c, r in zip(run_cases, recs)}
     for rec in records:
         if rec["kind"] != "pair" or rec["oracle"].startswith("FAIL") or not str(rec["case"].get("mode", "")).startswith("c10:"):
@@ -1725,6 +1750,8 @@ def c18_post(rec, c, r, d):
     (1) a call whose props parameter has NO default gets no `default` entry in the injected props and no mergeDefaults;
     (2) when the injected props go through mergeDefaults, the declarations handed to it carry no `default` of their own
         (otherwise a prop absent from the dynamic object keeps a default nobody wrote for this component)"""
+    if os.environ.get("VJX_NO_PY_CLAUSES"):
+        return
     if rec["oracle"] != "ok" or not (c.get("opts") or {}).get("resolveType") or "in" not in r or "out" not in r or r.get("panic") is not None:
         return
     cin, cout = _dc_calls(r["in"], {}), _dc_calls(r["out"], {})
